@@ -197,3 +197,45 @@ Example C06_judge_discriminates :
   spec_okb ex_rank eq110 ex_info (Some 10) [] [] (RErr None) = false /\
   spec_okb ex_rank eq110 ex_info (Some 10) [] [] (ROk 2 false) = false.
 Proof. repeat split; vm_compute; reflexivity. Qed.
+
+(* ---------- graph level (registry stage of the builder model, Model/Jsr.v) ----------
+   Lockfile-seeded selections (ModuleGraph::fill_from_lockfile) are honoured by every build,
+   restarts included: the seeded versions stay selected, and every requirement is mapped either
+   exactly as the lockfile wrote it or - once resolved - to a version that is not below any
+   seeded version of its package that satisfies it ("the highest version already selected that
+   satisfies it" can never be lower than a satisfying lockfile selection). Before the repair of
+   F-C06b (Builder::restart dropped what the lockfile had filled in) this was false of the code and
+   of the model. *)
+From DG Require Model.Jsr Proofs.JsrTable.
+
+Theorem C06_registry_lockfile_respected : forall W o roots g,
+  Jsr.jbuild W o roots = Some g ->
+  (forall r p v, In (r, (p, v)) (Jsr.jw_seed W) -> In (p, v) (Jsr.pt_by_name (Jsr.jg_pkgs g))) /\
+  (forall req p v, lookup req (Jsr.pt_map (Jsr.jg_pkgs g)) = Some (p, v) ->
+     In (req, (p, v)) (Jsr.jw_seed W) \/
+     forall s, In s (Jsr.seeded_versions W p) -> Jsr.matches W req s = true -> (s <= v)%N).
+Proof.
+  intros W o roots g H. exact (proj2 (proj2 (JsrTable.jbuild_table W o roots g H))).
+Qed.
+Print Assumptions C06_registry_lockfile_respected.
+
+(* Non-vacuity, and the reproduction of F-C06b as the model sees it (the world is the harness's
+   abstraction of: main.ts imports jsr:@s/a@1 and jsr:@s/b@2; @s/a has 1.0.0 and 1.1.0; @s/b has only
+   1.0.0, so the first pass cannot satisfy @s/b@2 and the builder restarts; the lockfile selects
+   @s/a@1 -> 1.0.0). Requirement 1 = @s/a@1, package 1 = @s/a, versions 1 = 1.0.0, 2 = 1.1.0. *)
+From DG Require Base.Sexp Model.RunJsr.
+Definition c06j_world_sx : Sexp.sexp :=
+  Sexp.L [Sexp.L [Sexp.L [Sexp.A 2; Sexp.A 3; Sexp.A 1; Sexp.A 1; Sexp.A 2]; Sexp.L [Sexp.A 3; Sexp.A 3; Sexp.A 1; Sexp.A 1; Sexp.A 3]; Sexp.L [Sexp.A 5; Sexp.A 3; Sexp.A 1; Sexp.A 2; Sexp.A 2]; Sexp.L [Sexp.A 6; Sexp.A 3; Sexp.A 1; Sexp.A 2; Sexp.A 3]; Sexp.L [Sexp.A 9; Sexp.A 3; Sexp.A 4; Sexp.A 1; Sexp.A 2]; Sexp.L [Sexp.A 12; Sexp.A 1; Sexp.A 1; Sexp.A 1; Sexp.A 5]; Sexp.L [Sexp.A 13; Sexp.A 1; Sexp.A 4; Sexp.A 2; Sexp.A 5]]; Sexp.L [Sexp.L [Sexp.A 1; Sexp.L [Sexp.A 4; Sexp.A 1; Sexp.A 6; Sexp.A 1; Sexp.A 0; Sexp.L [Sexp.L [Sexp.A 12; Sexp.A 7; Sexp.A 0]; Sexp.L [Sexp.A 13; Sexp.A 8; Sexp.A 0]]]]; Sexp.L [Sexp.A 3; Sexp.L [Sexp.A 4; Sexp.A 3; Sexp.A 9; Sexp.A 1; Sexp.A 0; Sexp.L []]]; Sexp.L [Sexp.A 6; Sexp.L [Sexp.A 4; Sexp.A 6; Sexp.A 10; Sexp.A 1; Sexp.A 0; Sexp.L []]]]; Sexp.L []; Sexp.L [Sexp.L [Sexp.A 1; Sexp.A 8; Sexp.L [Sexp.A 1; Sexp.L [Sexp.L [Sexp.A 1; Sexp.A 0]; Sexp.L [Sexp.A 2; Sexp.A 0]]]; Sexp.L [Sexp.A 1; Sexp.L [Sexp.L [Sexp.A 1; Sexp.A 0]; Sexp.L [Sexp.A 2; Sexp.A 0]]]]; Sexp.L [Sexp.A 4; Sexp.A 11; Sexp.L [Sexp.A 1; Sexp.L [Sexp.L [Sexp.A 1; Sexp.A 0]]]; Sexp.L [Sexp.A 1; Sexp.L [Sexp.L [Sexp.A 1; Sexp.A 0]]]]]; Sexp.L [Sexp.L [Sexp.A 1; Sexp.A 1; Sexp.A 4; Sexp.A 2; Sexp.L [Sexp.A 1; Sexp.A 11; Sexp.L []; Sexp.L [Sexp.L [Sexp.A 5; Sexp.A 3]]; Sexp.L []; Sexp.L []]; Sexp.A 0]; Sexp.L [Sexp.A 1; Sexp.A 2; Sexp.A 7; Sexp.A 5; Sexp.L [Sexp.A 1; Sexp.A 11; Sexp.L []; Sexp.L [Sexp.L [Sexp.A 5; Sexp.A 6]]; Sexp.L []; Sexp.L []]; Sexp.A 0]; Sexp.L [Sexp.A 4; Sexp.A 1; Sexp.A 10; Sexp.A 9; Sexp.L [Sexp.A 0; Sexp.A 0]; Sexp.A 0]]; Sexp.L [Sexp.L [Sexp.A 1; Sexp.L [Sexp.A 1; Sexp.A 2]]; Sexp.L [Sexp.A 2; Sexp.L []]]; Sexp.L []; Sexp.L []; Sexp.L [Sexp.A 2; Sexp.A 3; Sexp.A 4; Sexp.A 5; Sexp.A 6; Sexp.A 7; Sexp.A 8; Sexp.A 9; Sexp.A 10; Sexp.A 11]; Sexp.A 12; Sexp.A 10; Sexp.L [Sexp.L [Sexp.A 1; Sexp.A 1; Sexp.A 1]]].
+
+Example C06_registry_lockfile_nonvacuous :
+  match RunJsr.dec_jworld c06j_world_sx with
+  | Some W =>
+      Jsr.wf_jworld W = true /\ Jsr.jw_seed W = [(1, (1, 1))]%N /\
+      Jsr.matches W 1 1 = true /\ Jsr.matches W 1 2 = true /\
+      match Jsr.jbuild W {| Jsr.jo_prefer_cached := false |} [1%N] with
+      | Some g => Jsr.jg_restarted g = true /\ lookup 1%N (Jsr.pt_map (Jsr.jg_pkgs g)) = Some (1, 1)%N
+      | None => False
+      end
+  | None => False
+  end.
+Proof. vm_compute. repeat split; reflexivity. Qed.
